@@ -169,7 +169,7 @@ def check(x):
             if b in rets and a in calls and rets[b] < calls[a]:
                 x.require(False, "fifo-violated", detail="%s reached the delegate before %s" % (a, b))
     # ---- (c) no idle capacity (static counts): replay the log against a reference queue
-    if static and not p["block"]:
+    if static:
         lim = COUNTS[p["count"]]
         lim = unlimited if lim is None else lim
         infl = 0
